@@ -223,6 +223,28 @@ pub fn paren_pool(bases: Arc<Vec<Base>>) -> MutPool {
     }
 }
 
+/// M-PPAREN: redundant parentheses around *patterns* (closure parameters, let/for patterns, destructuring items).
+pub fn pattern_paren_pool(bases: Arc<Vec<Base>>) -> MutPool {
+    let sites: Arc<Vec<Vec<NodeRef>>> = Arc::new(bases.iter().map(|b| mutate::pattern_paren_sites(&b.root)).collect());
+    let index: std::collections::HashMap<String, usize> =
+        bases.iter().enumerate().map(|(i, b)| (b.case.origin.clone(), i)).collect();
+    let mut prefix = vec![0usize];
+    for s in sites.iter() {
+        prefix.push(prefix.last().unwrap() + s.len() * mutate::PAREN_VARIANTS);
+    }
+    MutPool {
+        name: "M-PPAREN".into(),
+        bases,
+        prefix,
+        f: Box::new(move |b, j| {
+            let bi = *index.get(&b.case.origin)?;
+            let site = sites[bi].get(j / mutate::PAREN_VARIANTS)?;
+            let m = mutate::mutate_paren(&b.case.text, site, j % mutate::PAREN_VARIANTS);
+            tree::parse_ok(&m).map(|_| m)
+        }),
+    }
+}
+
 pub const SPLICE_PER_SITE: usize = 6;
 pub fn splice_pool(bases: Arc<Vec<Base>>, frags: Arc<Vec<Fragment>>) -> MutPool {
     let sites: Arc<Vec<Vec<NodeRef>>> = Arc::new(bases.iter().map(|b| mutate::splice_sites(&b.root)).collect());
@@ -271,6 +293,27 @@ pub fn uni_pool(bases: Arc<Vec<Base>>) -> MutPool {
             tree::parse_ok(&m).map(|_| m)
         },
     )
+}
+
+pub fn blank_pool(bases: Arc<Vec<Base>>) -> MutPool {
+    let targets: Arc<Vec<Vec<(usize, usize)>>> = Arc::new(bases.iter().map(|b| mutate::blank_targets(&b.root)).collect());
+    let index: std::collections::HashMap<String, usize> =
+        bases.iter().enumerate().map(|(i, b)| (b.case.origin.clone(), i)).collect();
+    let mut prefix = vec![0usize];
+    for t in targets.iter() {
+        prefix.push(prefix.last().unwrap() + t.len().min(12) * mutate::BLANK_VARIANTS);
+    }
+    MutPool {
+        name: "M-BLANK".into(),
+        bases,
+        prefix,
+        f: Box::new(move |b, j| {
+            let bi = *index.get(&b.case.origin)?;
+            let t = *targets[bi].get(j / mutate::BLANK_VARIANTS)?;
+            let m = mutate::mutate_blank(&b.case.text, t, j % mutate::BLANK_VARIANTS)?;
+            tree::parse_ok(&m).map(|_| m)
+        }),
+    }
 }
 
 // ------------------------------------------------------------------------------------------------
